@@ -249,3 +249,48 @@ c.trace("loop-ends-only-when-the-peer-closes",
 c.raises('OSError')
 c.modifies("self._connection.remaining", "self._connection.sent")
 c.allow_external()
+
+
+# ---------------------------------------------------------------- RequestMessage.read: all announced items or nothing
+# C12 ("executes no part of a request it could not fully decode") rests on the decoder: the
+# request handed to the engine holds exactly as many batch items as its header announces.  Proved
+# against the body: the item loop runs over range(batch count), every iteration decodes one item
+# and appends it (or raises), and the loop is never left early.
+def t_one_item_per_announced_item(ev, outcome, exc):
+    if any(e[0] == 'loop.break' for e in ev):
+        return "the item loop is left before the announced number of batch items has been decoded"
+    if outcome == 'iteration':
+        reads = [e for e in ev if e[0] == 'return' and e[1].endswith('RequestBatchItem.read')]
+        apps = [e for e in ev if e[0] == 'list.append']
+        if len(reads) != 1 or len(apps) != 1:
+            return "an iteration of the item loop decodes %d items and appends %d" % (len(reads), len(apps))
+    return True
+
+
+c = contract("kmip.core.messages.messages.RequestHeader.read", variant="for-message-read").props('C12')
+c.args(self=('obj', 'kmip.core.messages.messages.RequestHeader', {}), istream='opaque', kmip_version='opaque')
+c.may_raise_anything()
+c.modifies("self.protocol_version", "self.batch_count")
+c.modifies_kinds = {"self.protocol_version": 'opaque',
+                    "self.batch_count": ('obj', 'kmip.core.messages.contents.BatchCount', {'value': 'nat'})}
+c.trust("decoder of the request header (C01/ttlvsym): raises, or yields a protocol version and a batch count")
+
+c = contract("kmip.core.messages.messages.RequestBatchItem.read", variant="for-message-read").props('C12')
+c.args(self='opaque', istream='opaque', kmip_version=('oneof', 'opaque', 'none'))
+c.may_raise_anything()
+c.trust("decoder of one request batch item (C01/ttlvsym): raises or returns")
+
+c = contract("kmip.core.primitives.Base.read", variant="for-message-read").props("C12")
+c.args(self='opaque', istream='opaque', kmip_version='opaque')
+c.may_raise_anything()
+c.trust("tag/type/length of the enclosing structure (C01)")
+
+c = contract(RM + "read", variant="all-announced-items").props('C12')
+c.use_variant("for-message-read")
+c.args(self=('obj', 'kmip.core.messages.messages.RequestMessage', {}), istream='opaque',
+       kmip_version=('enum', 'kmip.core.enums.KMIPVersion'))
+c.loop(0, "True", havoc={'self.batch_items': ('accumulator', 'opaque')}, modifies=["self.batch_items"])
+c.may_raise_anything()
+c.allow_external()
+c.modifies("self.*")
+c.trace("one-decoded-item-per-announced-item-and-no-early-exit", t_one_item_per_announced_item)
